@@ -7,19 +7,31 @@ namespace NeoModel.Mempool
 
 /-! ### registering a new transaction in the index maps -/
 
-theorem addConflictEntries_spec (id : Nat) : ∀ (hs : List Nat) (c : Nat → Option (List Nat)) (h' : Nat), hs.Nodup →
-    addConflictEntries c id hs h' = if h' ∈ hs then some ((c h').getD [] ++ [id]) else c h' := by
-  intro hs
+theorem count_one_of_nodup (hs : List Nat) (x : Nat) (hnd : hs.Nodup) (hin : x ∈ hs) : hs.count x = 1 := by
   induction hs with
-  | nil => intro c h' _; simp [addConflictEntries]
-  | cons h hs ih =>
-    intro c h' hnd
+  | nil => cases hin
+  | cons a l ih =>
     rw [List.nodup_cons] at hnd
-    simp only [addConflictEntries]
-    rw [ih _ _ hnd.2]
-    by_cases e : h' = h
-    · subst e; simp [hnd.1]
-    · simp only [upd_other _ _ e, List.mem_cons, e, false_or]
+    rw [List.count_cons]
+    by_cases e : a = x
+    · subst e
+      have : l.count a = 0 := List.count_eq_zero_of_not_mem hnd.1
+      simp [this]
+    · have hx : x ∈ l := by
+        rcases List.mem_cons.mp hin with h | h
+        · exact absurd h.symm e
+        · exact h
+      have := ih hnd.2 hx
+      simp [e, this]
+
+theorem addConflictEntries_spec (id : Nat) (hs : List Nat) (c : Nat → Option (List Nat)) (h' : Nat) (hnd : hs.Nodup) :
+    addConflictEntries c id hs h' = if h' ∈ hs then some ((c h').getD [] ++ [id]) else c h' := by
+  unfold addConflictEntries
+  by_cases hin : h' ∈ hs
+  · have : hs.count h' = 1 := count_one_of_nodup hs h' hnd hin
+    simp [this, hin]
+  · have : hs.count h' = 0 := List.count_eq_zero_of_not_mem hin
+    simp [this, hin]
 
 theorem vmapOk_insert {L L' : List Tx} {m : Nat → Option Tx} (t : Tx) (hv : VmapOk L m)
     (hfresh : ∀ e ∈ L, e.id ≠ t.id) (hmem : ∀ x, x ∈ L' ↔ x = t ∨ x ∈ L) :
@@ -165,7 +177,7 @@ theorem feesOk_insert {L L' : List Tx} {f : Payer → Option Fee} (t : Tx) (hf :
 
 theorem tryAddSendersFee_nocheck (mp : Pool) (t : Tx) (feer : Feer) (fe : Fee) (hfe : mp.fees (payerOf t) = some fe) :
     (tryAddSendersFee mp t feer false).1 =
-      { mp with fees := upd mp.fees (payerOf t) (some { fe with feeSum := fe.feeSum + t.fee }) } := by
+      { mp with fees := upd mp.fees (payerOf t) (some { fe with feeSum := addW fe.feeSum t.fee }) } := by
   unfold tryAddSendersFee getPayerFee
   simp [hfe]
 
@@ -345,7 +357,11 @@ theorem finish_insert {U : Tx → Prop} (hw : WF U) {mp1 : Pool} {base : List Tx
     (tryAddSendersFee (register { mp1 with txs := shiftInsert mp1.txs n t } t) t feer false).1.feePerByte = mp1.feePerByte := by
   have hreg : (register { mp1 with txs := shiftInsert mp1.txs n t } t).fees (payerOf t) = some fe := hfe
   rw [tryAddSendersFee_nocheck _ t feer fe hreg]
-  simp only [register, htx, shiftInsert_spec base t n hn]
+  have hadd : addW fe.feeSum t.fee = fe.feeSum + t.fee := by
+    apply addW_eq
+    have := hf (payerOf t); rw [hfe] at this; simp only [FeeEntry] at this
+    have := two_H256; omega
+  simp only [register, htx, shiftInsert_spec base t n hn, hadd]
   have hmem : ∀ x, x ∈ base.take n ++ [t] ++ base.drop n ↔ x = t ∨ x ∈ base := by
     intro x
     have : x ∈ base ↔ x ∈ base.take n ∨ x ∈ base.drop n := by
